@@ -61,6 +61,7 @@ type finding struct {
 	Sig    string `json:"sig"`
 	Detail string `json:"detail"`
 	Combo  string `json:"combo"`
+	Err    string `json:"err,omitempty"` // the error CompileModule returned (allocation findings)
 }
 
 type outCase struct {
@@ -81,6 +82,7 @@ type outCase struct {
 	Findings  []finding      `json:"findings,omitempty"`
 	Hex       string         `json:"hex,omitempty"`
 	WgenFS    int            `json:"wgenfs,omitempty"` // index of wrun.Features(cfg) for wgen inputs
+	ErrOf     map[int]string `json:"errof,omitempty"`  // wgen inputs: error class per rejecting combo
 	AllocViol bool           `json:"allocviol,omitempty"`
 	// probe
 	ControlMs float64 `json:"control_ms,omitempty"`
@@ -825,12 +827,14 @@ func child(mode string, in json.RawMessage) any {
 			s.dropRuntime(combo)
 			out.Acc[combo] = 0
 		case s.bnd.Set && (alloc > lim || (cm == nil && alloc > s.bnd.rejectedLimit(len(bin)))):
+			which := "bound of " + engNames[combo%2]
 			if alloc <= lim {
 				lim = s.bnd.rejectedLimit(len(bin))
+				which = "bound for rejected inputs (smaller of both engines)"
 			}
 			// the same verdict the sentinel would have reached: the input is decided
 			out.AllocViol = true
-			out.Findings = append(out.Findings, finding{Sig: "ALLOC", Detail: fmt.Sprintf("TotalAlloc delta %d > bound %d (A=%.0f B=%.0f, input %d bytes) err=%q", alloc, lim, s.bnd.A[combo%2], s.bnd.B[combo%2], len(bin), core.Trunc(errText, 200)), Combo: comboName(combo)})
+			out.Findings = append(out.Findings, finding{Sig: "ALLOC", Detail: fmt.Sprintf("TotalAlloc delta %d > %s %d (input %d bytes) err=%q", alloc, which, lim, len(bin), core.Trunc(errText, 200)), Combo: comboName(combo), Err: core.Trunc(errText, 200)})
 			if cm != nil {
 				cm.Close(context.Background())
 			}
@@ -839,6 +843,12 @@ func child(mode string, in json.RawMessage) any {
 		case cm == nil:
 			out.Acc[combo] = 0
 			errSet[errClass(errText)] = true
+			if ic.K == "wgen" {
+				if out.ErrOf == nil {
+					out.ErrOf = map[int]string{}
+				}
+				out.ErrOf[combo] = errClass(errText)
+			}
 		default:
 			out.Acc[combo] = 1
 			cms[combo] = cm
